@@ -169,6 +169,21 @@ Theorem C19_F8_pinned_refuted : exists e, guard_F8 no_fixes false false e = true
 Proof. exact F8_refuted. Qed.
 Print Assumptions C19_F8_pinned_refuted.
 
+(** the scopes-matcher decode hook (`assertions: {scopes: …}` of a rule-level authenticator config),
+    for every value: it panics exactly on the inputs of C19-F9, and never once its assertions are checked *)
+Theorem C19_decode_scopes_panic_iff : forall f v s,
+  decode_scopes f v = Panic s <-> (s = SScopes /\ guard_F9 f v = true).
+Proof. exact decode_scopes_panic_iff. Qed.
+Print Assumptions C19_decode_scopes_panic_iff.
+
+Theorem C19_decode_scopes_total_fixed : forall f v s, fx9 f = true -> decode_scopes f v <> Panic s.
+Proof. exact decode_scopes_total_fixed. Qed.
+Print Assumptions C19_decode_scopes_total_fixed.
+
+Theorem C19_F9_refuted : exists v, guard_F9 no_fixes v = true /\ exists s, decode_scopes no_fixes v = Panic s.
+Proof. exact F9_refuted. Qed.
+Print Assumptions C19_F9_refuted.
+
 (** * File-system provider: every fsnotify event, previous state, file situation and processor answer *)
 
 Theorem C19_fs_total : forall st e, spec_fs_ok st (fs_changed all_fixes st e).
